@@ -202,6 +202,10 @@ impl WalRecord {
                     .map_err(|_| Error::WalRecordTooLarge(u32::MAX))?;
                 out.extend_from_slice(&key_len.to_le_bytes());
                 out.extend_from_slice(key_bytes);
+                if value.exceeds_nesting(nervusdb_api::MAX_PROPERTY_NESTING) {
+                    // The decoder would not take it back.
+                    return Err(Error::WalProtocol("property value nested too deeply"));
+                }
                 let value_bytes = value.encode();
                 out.extend_from_slice(&value_bytes);
             }
@@ -220,6 +224,10 @@ impl WalRecord {
                     .map_err(|_| Error::WalRecordTooLarge(u32::MAX))?;
                 out.extend_from_slice(&key_len.to_le_bytes());
                 out.extend_from_slice(key_bytes);
+                if value.exceeds_nesting(nervusdb_api::MAX_PROPERTY_NESTING) {
+                    // The decoder would not take it back.
+                    return Err(Error::WalProtocol("property value nested too deeply"));
+                }
                 let value_bytes = value.encode();
                 out.extend_from_slice(&value_bytes);
             }
